@@ -17,7 +17,7 @@ def pep479 : Exc → Exc
 /-- the relay's answer to one step of the user body (monitor idle before / 1 during) -/
 def relayOf {ub : UB} (env : Env) (first : Bool) : UStep ub.σ → CSt ub.σ × Env × CallOut
   | .yieldVal v s' => (.susp s', env.set 0 0, .raised (.oobData v))
-  | .await y s' => (.susp s', env.set 0 1, .pending y)
+  | .await y s' => (.susp s', env.set 0 1, .pending (.plain y))
   | .ret s' => (.done s', env.set 0 0, .returned 0)
   | .raise e s' => (.done s', env.set 0 0, .raised (match first, e with
       | true, .oobData _ => .runtime rtRaisedOOB
